@@ -64,7 +64,7 @@ _C08 = ["c08_compare_exchange", "c08_compare_exchange_weak", "c08_compare_exchan
 _L2S = ["l2_rc_ledger", "l2_rc_new_deref"]
 _C10 = ["c10_new_many_0", "c10_new_many_1", "c10_new_many_2", "c10_new_many_3", "c10_new_many_8", "c10_new_many_iter", "c10_iter_next_drop_abort",
         "c10_weak_many_0", "c10_weak_many_1", "c10_weak_many_3", "c10_weak_many_8"]
-_C19 = ["c19_rc", "c19_snapshot"]
+_C19 = ["c19_rc", "c19_snapshot", "c19_partial_eq_not_reflexive"]
 PROPS["L2S"] = dict(
     title="(dev) all strong.rs L2 contracts", level="proof", modules=["utils_rg_h.rs", "internal_cut_h.rs", "strong_h.rs"], contract_groups=[],
     kani=dict(quick=["strong_h.rs::" + h for h in _C08 + _L2S + _C10 + _C19 + ["c11_rc_snapshot_tags"]]),
@@ -112,7 +112,7 @@ PROPS["C01"] = dict(
     title="a strong reference keeps its object alive", level="proof",
     modules=_MODS_ALL, contract_groups=["state", "modular"],
     kani=dict(quick=_h(_RGF, _RG_LEMMAS + _RG_STRONG + _RG_WEAK) + _h("utils_dispose_h.rs", ["dispose_chain_level", "dispose_leaf_any_depth"])
-              + _h("strong_h.rs", ["l2_rc_ledger", "l2_rc_new_deref", "c08_compare_exchange", "c08_store", "c08_swap", "c08_take_drop_from", "c08_new", "c10_iter_next_drop_abort", "c10_weak_many_3"])
+              + _h("strong_h.rs", ["l2_rc_ledger", "l2_rc_new_deref", "c08_compare_exchange", "c08_store", "c08_swap", "c08_take_drop_from", "c08_new", "c10_iter_next_drop_abort", "c10_weak_many_3", "c11_rc_snapshot_tags"])
               + _h("weak_h.rs", ["c05_weak_upgrade"])),
     kani_flags=_FAST, loops=_STUTTER,
     functions_under_contract=_L1_FUNCS + ["Rc::{new,clone,from_raw,into_raw,finalize,drop,downgrade,snapshot,as_ref,deref}", "Snapshot::counted", "Weak::upgrade",
@@ -128,7 +128,7 @@ PROPS["C03"] = dict(
     title="a weak reference keeps the block allocated", level="proof",
     modules=_MODS_ALL, contract_groups=["state", "modular"],
     kani=dict(quick=_h(_RGF, _RG_LEMMAS + _RG_WEAK + ["rg_increment_strong_unguarded"]) + _h("utils_dispose_h.rs", ["dispose_chain_level", "dispose_leaf_any_depth"])
-              + _h("weak_h.rs", ["l2_weak_ledger", "c09_compare_exchange", "c09_load_store_swap", "c09_drop_from_get_mut", "c05_weak_upgrade", "c05_wsnap_upgrade"])
+              + _h("weak_h.rs", ["l2_weak_ledger", "c09_compare_exchange", "c09_load_store_swap", "c09_drop_from_get_mut", "c05_weak_upgrade", "c05_wsnap_upgrade", "c11_weak_tags"])
               + _h("strong_h.rs", ["l2_rc_ledger", "c10_weak_many_1", "c10_weak_many_3"])),
     kani_flags=_FAST, loops=_STUTTER,
     functions_under_contract=_L1_FUNCS + ["Weak::{clone,drop,from_raw,into_raw,snapshot,upgrade}", "WeakSnapshot::{counted,upgrade}", "Rc::{downgrade,weak_many}", "AtomicWeak::{store,swap,compare_exchange,drop,from,get_mut}"],
@@ -141,8 +141,8 @@ PROPS["C04"] = dict(
     title="destructed once, freed once, nothing leaks", level="proof",
     modules=_MODS_ALL, contract_groups=["state", "modular"],
     kani=dict(quick=_h(_RGF, _RG_LEMMAS + _RG_STRONG + _RG_WEAK) + _h("utils_dispose_h.rs", _DISP_CORE)
-              + _h("strong_h.rs", ["l2_rc_ledger", "c08_take_drop_from", "c08_store", "c10_iter_next_drop_abort", "c10_new_many_0", "c10_new_many_iter"])
-              + _h("weak_h.rs", ["l2_weak_ledger", "c09_drop_from_get_mut", "c09_load_store_swap"])),
+              + _h("strong_h.rs", ["l2_rc_ledger", "c08_take_drop_from", "c08_store", "c10_iter_next_drop_abort", "c10_new_many_0", "c10_new_many_iter", "c11_rc_snapshot_tags"])
+              + _h("weak_h.rs", ["l2_weak_ledger", "c09_drop_from_get_mut", "c09_load_store_swap", "c11_weak_tags"])),
     kani_flags=_FAST, loops=_STUTTER,
     functions_under_contract=_L1_FUNCS + ["Drop for Rc/AtomicRc/Weak/AtomicWeak/NewRcIter", "Rc::finalize", "NewRcIter::abort", "AtomicRc::store", "AtomicWeak::store"],
     expected_obligations=["C04.lemma.pop_edges_before_drop", "C04.lemma.zero_count_has_pending_attempt", "C04.lemma.zero_weak_has_pending_dealloc", "C04.dec.defers_try_destruct_iff_hit_zero",
@@ -255,7 +255,7 @@ PROPS["C19"] = dict(
     functions_under_contract=["PartialEq/Eq/PartialOrd/Ord/Hash for Rc<T>", "PartialEq/Eq/PartialOrd/Ord/Hash for Snapshot<T>", "Rc::ptr_eq", "Snapshot::ptr_eq", "Rc::as_ref", "Snapshot::as_ref"],
     expected_obligations=["C19.eq.agrees_with_referent", "C19.cmp.agrees_with_referent", "C19.partial_cmp.agrees_with_referent", "C19.hash.same_stream_as_referent", "C19.null.distinct_and_smallest",
                           "C19.ptr_eq.identity_plus_tag", "C19.law.antisymmetric", "C19.law.transitive", "C19.law.equal_implies_equal_hash"],
-    trusted_base=[A_TOOLS, A_ADDR, "one payload type (u8 field, derived Eq/Ord/Hash) stands for every T by parametricity"],
+    trusted_base=[A_TOOLS, A_ADDR, "two payload types (u8 field with derived Eq/Ord/Hash; a NaN-like type whose PartialEq is not reflexive) stand for every T by parametricity"],
     assumptions=["pointers range over {null, A, B} x all tags x all timestamps with symbolic payloads"],
 )
 # C11 and C12 gain the wrappers / the decision site
@@ -376,7 +376,8 @@ PROPS["C18"] = dict(
     harness_timeout=dict(quick=1500, thorough=5400),
     title="epoch advancement never overlooks a registered participant: sequential traversal contract", level="other",
     modules=_L3M, contract_groups=_L3G,
-    kani=dict(quick=_h("list_h.rs", ["c18_iter_sequential", "c18_insert_delete", "c18_delete_is_atomic"]) + _h(_INT, ["c13_try_advance", "c15_finalize", "c18_try_advance_stalled", "c18_register"])), kani_flags=_FAST,
+    kani=dict(quick=_h("list_h.rs", ["c18_iter_sequential", "c18_insert_delete", "c18_delete_is_atomic"]) + _h(_INT, ["c13_try_advance", "c15_finalize", "c18_try_advance_stalled", "c18_register"]),
+              thorough=_h("list_h.rs", ["c18_iter_sequential_4"])), kani_flags=_FAST,
     loops="Iter::next's unlink loop and List::insert's CAS loop: unwound with unwinding assertions on (complete for <= 3 entries)",
     bounded=["registry of <= 3 entries with symbolic delete marks; single thread"],
     functions_under_contract=["List::{new,insert,iter}", "Entry::delete", "Iter::next", "Global::try_advance (visits every participant)", "Local::finalize (marks its entry)"],
